@@ -44,6 +44,7 @@ import (
 	"go/token"
 	"reflect"
 	"strconv"
+	"strings"
 )
 
 var inlineCounter int
@@ -454,6 +455,7 @@ func renameIdent(list []ast.Stmt, from, to string) {
 type inliner struct {
 	helpers map[string]*helper // by funcKey
 	failed  map[string]bool    // helpers with a call that could not be inlined
+	shadow  map[string]bool    // names the function being rewritten declares itself (parameters, locals): a call of such a name is not a helper call
 	log     []string
 }
 
@@ -526,7 +528,7 @@ func (in *inliner) instantiate(h *helper, recv ast.Expr, args []ast.Expr, keep, 
 func (in *inliner) helperOfCall(c *ast.CallExpr, recvTypes map[string]string) (*helper, ast.Expr) {
 	switch f := c.Fun.(type) {
 	case *ast.Ident:
-		if h := in.helpers[f.Name]; h != nil && h.recvName == "" {
+		if h := in.helpers[f.Name]; h != nil && h.recvName == "" && !in.shadow[f.Name] {
 			return h, nil
 		}
 	case *ast.SelectorExpr:
@@ -681,7 +683,12 @@ func (in *inliner) rewriteList(list []ast.Stmt, nres int) []ast.Stmt {
 									for _, hs := range h.decl.Body.List {
 										if a, ok := hs.(*ast.AssignStmt); ok && a.Tok == token.DEFINE && len(a.Lhs) == 1 {
 											if id, ok := a.Lhs[0].(*ast.Ident); ok && id.Name == rid.Name {
-												keep, keepAs = rid.Name, lid.Name
+												// the new name must not already mean something in the helper's body (a type, a function, a
+												// parameter) — except on the right-hand side of the defining statement itself, where the new
+												// variable is not yet in scope (`list := &list{…}`)
+												if identOccurs(h.decl.Body, lid.Name)-identOccurs(a.Rhs[0], lid.Name) == 0 {
+													keep, keepAs = rid.Name, lid.Name
+												}
 											}
 										}
 									}
@@ -835,6 +842,20 @@ func inlineHelpers(files []*ast.File) []string {
 				continue
 			}
 			if h := classifyHelper(fd); h != nil {
+				if h.recvName != "" {
+					// there is no type information: a call `x.name(…)` is taken to be a call of the helper method, so the
+					// name must not be the name of any method or function of the pinned source
+					clash := false
+					for k := range baselineFuncs {
+						if k == fd.Name.Name || strings.HasSuffix(k, "."+fd.Name.Name) {
+							clash = true
+						}
+					}
+					if clash {
+						in.log = append(in.log, fmt.Sprintf("new method %s shares its name with a function of the pinned source: not inlined", k))
+						continue
+					}
+				}
 				in.helpers[h.name] = h
 				if h.recvName == "" {
 					in.helpers[fd.Name.Name] = h
@@ -854,6 +875,15 @@ func inlineHelpers(files []*ast.File) []string {
 				fd, ok := d.(*ast.FuncDecl)
 				if !ok || fd.Body == nil {
 					continue
+				}
+				in.shadow = map[string]bool{}
+				for _, n := range declaredLocals(fd.Body.List) {
+					in.shadow[n] = true
+				}
+				for _, p := range fd.Type.Params.List {
+					for _, n := range p.Names {
+						in.shadow[n.Name] = true
+					}
 				}
 				fd.Body.List = in.rewriteList(fd.Body.List, resultCount(fd))
 			}
